@@ -87,6 +87,9 @@ def initial_lines(text):
 
 def expand_state(job, acc: Acc):
     """All transitions out of one state.  job = (client_text, ins_texts, collect)"""
+    from ..driver import clear_caches
+
+    clear_caches()
     text, ins_texts, collect, family = job
     base = refdoc.split_lines(text)
     succ = set()
@@ -164,6 +167,85 @@ def bfs_unit(ctx, depth_full, depth_reduced):
 
 def _pmap_states(jobs):
     return core.pmap(expand_state, jobs, chunk=4, budget_s=120, label="C02/unit")
+
+
+# ------------------------------------------------ histories on one live object
+HIST_INIT = "ab\ncd\n"
+
+
+def _hist_ops(text):
+    """Menu of changes computed from the current client text (always in range)."""
+    lines = refdoc.split_lines(text)
+    last = max((i for i, ln in enumerate(lines) if ln), default=0)
+    ops = {
+        "W_init": _mk_change(None, HIST_INIT),
+        "W_other": _mk_change(None, "p\nq\n"),
+        "W_same": _mk_change(None, text),
+        "S_ins0": _mk_change(((0, 0), (0, 0)), "x"),
+        "S_insend": _mk_change(((last, len(lines[last])), (last, len(lines[last]))), "y"),
+        "M_break": _mk_change(((0, len(lines[0])), (0, len(lines[0]))), "\n"),
+        "M_two": _mk_change(((0, 0), (0, 0)), "a\nb"),
+    }
+    if lines[0]:
+        ops["S_del0"] = _mk_change(((0, 0), (0, 1)), "")
+        ops["S_rep0"] = _mk_change(((0, 0), (0, 1)), "z")
+    if len(lines) > 1:
+        ops["M_join"] = _mk_change(((0, 0), (1, 0)), "")
+    return ops
+
+
+HIST_NAMES = ["W_init", "W_other", "W_same", "S_ins0", "S_insend", "S_del0", "S_rep0", "M_break", "M_two", "M_join"]
+
+
+def history_case(seq, acc: Acc):
+    """One edit history replayed step by step on ONE real FortranFile that was
+    loaded from disk (as didOpen does); memoised state is cleared first so the
+    case is self-contained."""
+    from fortls.parsers.internal.parser import FortranFile
+
+    from ..driver import clear_caches
+
+    clear_caches()
+    sc = core_scratch()
+    p = os.path.join(sc.path, "hist.f90")
+    with open(p, "w") as f:
+        f.write(HIST_INIT)
+    fobj = FortranFile(p)
+    fobj.load_from_disk()
+    text = HIST_INIT
+    done = []
+    for name in seq:
+        ops = _hist_ops(text)
+        if name not in ops:
+            return  # operation not applicable in this state: history not generated
+        ch = ops[name]
+        done.append(ch)
+        before = text
+        text = refdoc.apply(text, ch)
+        want = refdoc.split_lines(text)
+        exc = None
+        try:
+            fobj.apply_change(ch)
+            got = list(fobj.contents_split)
+        except Exception as e:  # noqa
+            got, exc = None, type(e).__name__
+        acc.count("transitions")
+        if got != want or fobj.nLines != len(want):
+            t = _tags("history", before, ch, got or [], want, exc)
+            t["family"] = "history"
+            acc.violation(Violation("history", t, {"doc": HIST_INIT, "history": list(seq), "seam": "history"},
+                                    want, got, what=f"history={list(seq)}"))
+            break
+    acc.case(nontrivial_key=tuple(seq), outcome=text)
+    if len(acc.samples) < 1:
+        acc.sample({"history": list(seq), "final_text": text})
+
+
+def history_jobs(maxlen):
+    import itertools
+
+    for n in range(1, maxlen + 1):
+        yield from itertools.product(HIST_NAMES, repeat=n)
 
 
 # ------------------------------------------------------- non-BMP sub-family
@@ -327,11 +409,13 @@ def main(ctx):
         ctx.coverage_extra["bounds"] = {"unit": "depth 2 full alphabet, depth 3 reduced alphabet", "e2e": "depth 2"}
     ctx.add_family("unit_apply_change", acc)
     ctx.add_family("unit_nonbmp", nonbmp_family())
+    hacc = core.pmap(history_case, history_jobs(4 if ctx.quick else 5), chunk=128, budget_s=60, label="C02/history")
+    ctx.add_family("history", hacc, max_len=4 if ctx.quick else 5)
     jobs = list(e2e_jobs(depth2=not ctx.quick))
     e2e = core.pmap(e2e_worker, jobs, chunk=16, budget_s=60, label="C02/e2e")
     ctx.add_family("e2e_didchange", e2e)
     ctx.states = states
-    ctx.transitions = trans + e2e.counters.get("transitions", 0)
+    ctx.transitions = trans + e2e.counters.get("transitions", 0) + hacc.counters.get("transitions", 0)
     # every transition above *is* an execution of the implementation
     ctx.traces_validated = ctx.transitions
     ctx.coverage_extra["note"] = ("the model (refdoc) is stepped in lock-step with the implementation on every "
@@ -346,6 +430,10 @@ def replay(rec):
         seq = case["changes"]
         e2e_worker((case["incremental"], case["per_msg"], seq[0], seq[1] if len(seq) > 1 else None), acc)
         return [v.to_json("C02") for v in acc.violations]
+    if case.get("seam") == "history":
+        acc = Acc()
+        history_case(tuple(case["history"]), acc)
+        return [v.to_json("C02") for v in acc.violations] or None
     f = _new_file(refdoc.split_lines(text))
     for ch in case["changes"]:
         try:
